@@ -25,6 +25,8 @@ package encoding
 import (
 	"bytes"
 	"encoding/json"
+	"errors"
+	"io"
 	"math"
 	"strconv"
 	"strings"
@@ -57,6 +59,18 @@ func decodeValue(val interface{}) (string, error) {
 		} else {
 			return "false", nil
 		}
+	case json.Number: // Non-empty Leaf containing number, as written
+		// An integer literal is passed on as it is: going through float64
+		// would alter 64-bit values (9007199254740993, the int64 and
+		// uint64 extremes). Any other number is treated as below.
+		if isIntegerLiteral(string(typeValue)) {
+			return string(typeValue), nil
+		}
+		f, err := typeValue.Float64()
+		if err != nil {
+			return "", schema.NewMissingValueError(nil)
+		}
+		return decodeValue(f)
 	case float64: // Non-empty Leaf containing number of any sort
 		// Only a whole number that fits an int64 has an integer form; any
 		// other number keeps its exact decimal form, so that the schema
@@ -71,6 +85,22 @@ func decodeValue(val interface{}) (string, error) {
 	default:
 		return "", schema.NewMissingValueError(nil)
 	}
+}
+
+// isIntegerLiteral: an optional minus sign followed by decimal digits
+func isIntegerLiteral(s string) bool {
+	if strings.HasPrefix(s, "-") {
+		s = s[1:]
+	}
+	if s == "" {
+		return false
+	}
+	for i := 0; i < len(s); i++ {
+		if s[i] < '0' || s[i] > '9' {
+			return false
+		}
+	}
+	return true
 }
 
 func (jr *JSONReader) values() ([]string, error) {
@@ -189,8 +219,14 @@ func unmarshalJSONInternal(
 			return nil, err
 		}
 	} else {
-		if err := json.Unmarshal(json_input, &jr.decodedMsg); err != nil {
+		// Keep numbers as they are written (see decodeValue)
+		dec := json.NewDecoder(bytes.NewReader(json_input))
+		dec.UseNumber()
+		if err := dec.Decode(&jr.decodedMsg); err != nil {
 			return nil, err
+		}
+		if _, err := dec.Token(); err != io.EOF {
+			return nil, errors.New("invalid character after top-level value")
 		}
 	}
 
